@@ -24,6 +24,25 @@ def intsOf (name : String) : List Nat :=
   | some l => l
   | none => [4294967295]
 
+def beqNats' : List Nat → List Nat → Bool
+  | [], [] => true
+  | a :: as, b :: bs => Nat.beq a b && beqNats' as bs
+  | _, _ => false
+
+/-- the function `name` has exactly these (non-message) string literals, in this order — or, if no function of that name
+    exists any more (a rename), SOME function of the package has exactly them -/
+def fnHasLits (name : String) (expected : List Bytes) : Bool :=
+  match findFn Consts.funcStrings (str name) with
+  | some l => beqList (l.filter (fun x => !isMessage x)) expected
+  | none => Consts.funcStrings.any (fun p => beqList (p.2.filter (fun x => !isMessage x)) expected)
+
+/-- likewise for the integer literals; after a rename the function is recognised by its string literals -/
+def fnHasInts (name : String) (lits : List Bytes) (expected : List Nat) : Bool :=
+  match findFn Consts.funcInts (str name) with
+  | some l => beqNats' l expected
+  | none => Consts.funcStrings.any (fun p => beqList (p.2.filter (fun x => !isMessage x)) lits &&
+      (match findFn Consts.funcInts p.1 with | some l => beqNats' l expected | none => false))
+
 def beqNats : List Nat → List Nat → Bool
   | [], [] => true
   | a :: as, b :: bs => Nat.beq a b && beqNats as bs
